@@ -14,7 +14,7 @@ use vpmodel::spec::{chain_from_scripts, ChainSpec};
 pub const DEF: PropDef = PropDef {
     id: "C17",
     level: "exploration",
-    rule: "chains of 40..400 one-transaction blocks spread over 1..300 blk files in generated ways: disjoint height spans, overlapping spans (a window of k files active at a time), two or three files interleaved in height, random assignment; optional --start/--end inside a file; 40% of the directories are XOR-obfuscated. Oracle 1 (descriptor limit): N0 := smallest RLIMIT_NOFILE under which the single-file layout of the same chain and callback succeeds (binary search); the multi-file layout must succeed under N0 + (w-1), w = the model's maximum, over processed heights h, of the number of files that were touched at or before h and still hold a block of height >= h, and produce the same output. Oracle 2 (trace): under strace the number of simultaneously open blk*.dat descriptors never exceeds w, and every block is still delivered after a file was closed and reopened. Non-trivial = at least N0+20 files with w <= 3; distinct by layout hash.",
+    rule: "chains of 40..400 one-transaction blocks spread over 1..300 blk files in generated ways: disjoint height spans, overlapping spans (a window of k files active at a time), two or three files interleaved in height, random assignment; optional --start/--end inside a file; 40% of the directories are XOR-obfuscated. Oracle 1 (descriptor limit): N0 := smallest RLIMIT_NOFILE under which the single-file layout of the same chain and callback succeeds (binary search); the multi-file layout must succeed under N0 + (w-1), w = the model's maximum, over processed heights h, of the number of files that were touched at or before h and still hold a block of height >= h, and produce the same output. Oracle 2 (trace): under strace the number of simultaneously open blk*.dat descriptors never exceeds w, and every block is still delivered after a file was closed and reopened. Non-trivial = more blk files than the descriptor limit N0+(w-1) under which the run had to succeed, with w <= 3; distinct by layout hash.",
     assumptions: &["the descriptors the tool needs besides blk files (LevelDB, dump files, stdio) do not depend on the blk layout: calibrated per case on the single-file layout"],
     run,
     replay,
@@ -205,7 +205,7 @@ pub fn check(c: &Case) -> Verdict {
     }
     let classes = vec![format!("shape={}", match &c.shape { Shape::Disjoint => "disjoint", Shape::Overlap(_) => "overlap", Shape::Interleave(_) => "interleave", Shape::Random(_) => "random" }), format!("files={}", match nfiles_used { 0..=3 => "1-3", 4..=49 => "4-49", 50..=149 => "50-149", _ => "150+" }), format!("w={}", wd.min(5)), format!("cb={}", c.cb.cli()), format!("ranged={}", c.start.is_some() || c.end.is_some()), format!("reopen={}", opens > nfiles_used), format!("xor={}", c.xor)];
     let sample = serde_json::json!({"blocks": nb, "files": nfiles_used, "shape": format!("{:?}", c.shape).chars().take(60).collect::<String>(), "range": format!("{}..={}", s, e), "N0": n0, "w": wd, "limit": limit, "max_open_blk_in_trace": max_open, "opens_in_trace": opens, "callback": c.cb.cli()});
-    Verdict::Pass(Pass { nontrivial: nfiles_used as u64 >= n0 + 20 && wd <= 3, key: key_of(c), classes, known: vec![], sub_evals: runs, sample: Some(sample), extra_keys: vec![] })
+    Verdict::Pass(Pass { nontrivial: nfiles_used as u64 > limit && wd <= 3, key: key_of(c), classes, known: vec![], sub_evals: runs, sample: Some(sample), extra_keys: vec![] })
 }
 
 fn run(eng: &Engine, a: &Args) {
